@@ -23,7 +23,7 @@ LIFE = {
     "C02": ("C02", 320, ()),
     "C05": ("C05", 400, ()),
     "C06": ("C06", 320, ()),
-    "C07": ("C07", 480, ()),
+    "C07": ("C07", 800, ()),
     "C08": ("C08", 1000, ()),
     "C09": ("C09", 800, ()),
     "C20": ("C20", 320, ()),
